@@ -137,8 +137,8 @@ pub(crate) fn rewrite_with_alignment<T: AlignedItem>(
         let snippet = context.snippet(missing_span);
         if snippet.trim_start().starts_with("//") {
             let offset = snippet.lines().next().map_or(0, str::len);
-            // 2 = "," + "\n"
-            init_hi + BytePos(offset as u32 + 2)
+            // 1 = "\n" (the snippet starts behind the comma, wherever that is)
+            missing_span.lo() + BytePos(offset as u32 + 1)
         } else if snippet.trim_start().starts_with("/*") {
             let comment_lines = snippet
                 .lines()
@@ -152,7 +152,7 @@ pub(crate) fn rewrite_with_alignment<T: AlignedItem>(
                 .join("\n")
                 .len();
 
-            init_hi + BytePos(offset as u32 + 2)
+            missing_span.lo() + BytePos(offset as u32 + 1)
         } else {
             missing_span.lo()
         }
